@@ -181,6 +181,96 @@ pub fn run_loader_text(t: &str) -> &'static str {
     out
 }
 
+/// import statement forms of file `x` (fragment F<X>, operation Q<X>) with respect to another file `y`
+fn import_forms(x: &str, y: &str) -> Vec<String> {
+    let (ux, uy) = (x.to_uppercase(), y.to_uppercase());
+    vec![
+        format!("#import F{uy} from \"./{y}.graphql\"\n"),
+        format!("#import Nope from \"./{y}.graphql\"\n"),
+        format!("#import * from \"./{y}.graphql\"\n"),
+        format!("#import F{uy}, Nope from \"./{y}.graphql\"\n"),
+        format!("#import F{ux} from \"./{x}.graphql\"\n"),
+        format!("#import Nope from \"./{x}.graphql\"\n"),
+        format!("#import * from \"./{x}.graphql\"\n"),
+        format!("#import F{uy} from \"./missing.graphql\"\n"),
+        format!("#import Q{uy} from \"./{y}.graphql\"\n"),
+        format!("#import F{uy}, F{uy} from \"./{y}.graphql\"\n"),
+        format!("#import F{uy} from \"{y}.graphql\"\n"),
+        format!("#import F{uy} from \"../src/{y}.graphql\"\n"),
+    ]
+}
+
+fn import_graph_projects(quick: bool) -> Vec<Vec<(String, String)>> {
+    let body = |x: &str, spread: &str| {
+        let ux = x.to_uppercase();
+        format!("fragment F{ux} on Query {{ __typename {spread} }}\nquery Q{ux} {{ ...F{ux} }}\n")
+    };
+    let mut out = vec![];
+    // two files, up to two statements each
+    let heads = |x: &str, y: &str| -> Vec<String> {
+        let forms = import_forms(x, y);
+        let mut v = vec![String::new()];
+        v.extend(forms.iter().cloned());
+        for a in &forms {
+            for b in &forms {
+                v.push(format!("{a}{b}"));
+            }
+        }
+        v
+    };
+    let (ha, hb) = (heads("a", "b"), heads("b", "a"));
+    let hb: Vec<&String> = if quick { hb.iter().take(1 + 12).collect() } else { hb.iter().collect() };
+    for a in &ha {
+        for b in &hb {
+            out.push(vec![("/p/src/a.graphql".to_string(), format!("{a}{}", body("a", "...FB"))), ("/p/src/b.graphql".to_string(), format!("{b}{}", body("b", "")))]);
+        }
+    }
+    // three files in a ring / a fan, one statement each
+    let one = |x: &str, ys: [&str; 2]| -> Vec<String> {
+        let mut v = vec![String::new()];
+        for y in ys {
+            v.extend(import_forms(x, y));
+        }
+        v
+    };
+    for a in one("a", ["b", "c"]) {
+        for b in one("b", ["c", "a"]) {
+            for c in one("c", ["a", "b"]) {
+                out.push(vec![
+                    ("/p/src/a.graphql".to_string(), format!("{a}{}", body("a", "...FB"))),
+                    ("/p/src/b.graphql".to_string(), format!("{b}{}", body("b", "...FC"))),
+                    ("/p/src/c.graphql".to_string(), format!("{c}{}", body("c", ""))),
+                ]);
+            }
+        }
+    }
+    out
+}
+
+/// several operation files as one project: load (every file is resolved as a root), check, print
+fn run_op_project(files: &[(String, String)]) -> &'static str {
+    let b = base();
+    let ops: Vec<(PathBuf, String)> = files.iter().map(|(p, t)| (PathBuf::from(p), t.clone())).collect();
+    let loaded = match pipeline::load_operations(&ops, b.schema_texts.len()) {
+        Ok(l) => l,
+        Err(f) => {
+            let stage = f.diags[0].stage;
+            render_all(f, &b.schema_texts, &ops);
+            return stage;
+        }
+    };
+    if let Err(f) = pipeline::check_operations(&b.schema, &loaded) {
+        render_all(f, &b.schema_texts, &ops);
+        return "check-operation";
+    }
+    let cfg = pipeline::default_config();
+    for (_, doc, _, _) in &loaded {
+        let _ = pipeline::operation_dts(&b.schema, doc, &cfg, "./schema.js");
+        let _ = pipeline::operation_js(doc, &cfg);
+    }
+    "generated"
+}
+
 pub fn run_config_text(t: &str) -> &'static str {
     match nitrogql_config_file::parse_config(t) {
         Some(_) => "config:parsed",
@@ -857,6 +947,36 @@ pub fn run(args: &Args) -> i32 {
         par_for(texts.len(), args.threads, |i| ctx.run(Via::Schema, "one-name-two-definitions", &texts[i]));
         family_counts.insert("one-name-two-definitions".into(), json!({"cases": ctx.evals.load(Ordering::Relaxed) - before}));
     }
+    // ---------- import graphs: two operation files with up to two import statements each, and three files with
+    // one statement each, over an alphabet of statement forms (existing / missing / wildcard / duplicated names,
+    // the other file, the file itself, a file that does not exist, an operation name, another path spelling):
+    // every file is resolved as a root, checked and printed
+    {
+        let before = ctx.evals.load(Ordering::Relaxed);
+        let projects = import_graph_projects(args.quick());
+        let n_projects = projects.len();
+        par_for(projects.len(), args.threads, |i| {
+            let files = &projects[i];
+            ctx.evals.fetch_add(1, Ordering::Relaxed);
+            let r = catch(|| run_op_project(files));
+            match r {
+                Ok(o) => *ctx.outcomes.lock().unwrap().entry(format!("Project:{o}")).or_insert(0) += 1,
+                Err(p) => {
+                    if crate::util::is_harness_site(&p.site) {
+                        rep.report(Violation { key: format!("machinery.harness_panic@{}", p.site), what: p.msg.clone(), case: json!({"via": "Project", "files": files}) });
+                        return;
+                    }
+                    *ctx.outcomes.lock().unwrap().entry("Project:PANIC".into()).or_insert(0) += 1;
+                    rep.report(Violation {
+                        key: format!("panic@{}", p.key()),
+                        what: format!("panic at {} ({}) via Project [import-graphs]", p.site, p.msg),
+                        case: json!({"via": "Project", "family": "import-graphs", "files": files}),
+                    });
+                }
+            }
+        });
+        family_counts.insert("import-graphs".into(), json!({"cases": ctx.evals.load(Ordering::Relaxed) - before, "projects": n_projects}));
+    }
     // ---------- the configuration option product through the real binary: a panic is an exit status that is
     // neither 0 nor 1, or "panicked at" on stderr
     let cli_cfg = cli_configurations(args, &rep);
@@ -864,7 +984,7 @@ pub fn run(args: &Args) -> i32 {
 
     let outcomes = ctx.outcomes.lock().unwrap().clone();
     // vacuity guard: the corpus must reach generation
-    for need in ["Op:generated", "Schema:schema-ok/generated", "Loader:loader:emitted", "Config:config:parsed", "Introspection:introspection:read/checked", "Introspection:introspection:rejected"] {
+    for need in ["Project:generated", "Project:resolve-imports", "Op:generated", "Schema:schema-ok/generated", "Loader:loader:emitted", "Config:config:parsed", "Introspection:introspection:read/checked", "Introspection:introspection:rejected"] {
         if !outcomes.contains_key(need) {
             rep.report(Violation {
                 key: format!("machinery.vacuous.{need}"),
@@ -1065,7 +1185,12 @@ pub fn replay(case: &J) -> i32 {
         println!("loader worker answer: {:?}", w.ask(&json!({"text": t})));
         return 0;
     }
+    let files: Vec<(String, String)> = case["files"].as_array().into_iter().flatten().filter_map(|f| Some((f[0].as_str()?.to_string(), f[1].as_str()?.to_string()))).collect();
+    for (p, t) in &files {
+        println!("--- {p} ---\n{t}");
+    }
     let r = catch(|| match via {
+        "Project" => run_op_project(&files),
         "Op" => run_op_text(t),
         "Schema" => run_schema_text(t),
         "Introspection" => run_introspection_text(t),
